@@ -2,6 +2,7 @@ package main
 
 import (
 	"encoding/hex"
+	"math/big"
 	"strconv"
 	"strings"
 	"verifharness/runner"
@@ -18,6 +19,12 @@ func init() {
 		return []string{transform.ReverseComplement(a[0]), transform.Complement(a[0]), transform.Reverse(a[0]), bstr(checks.IsPalindromic(a[0]))}, nil
 	})
 	runner.Register("variants", func(a []string) ([]string, error) {
+		// An expansion this check cannot receive, but small enough that the code would try to build
+		// it (up to terabytes), is not submitted at all: reply `too-large`, judged as "not observed".
+		// Same predicate as Driver/C11.lean canEnumerate / harnessCallsAbove.
+		if n, known := iupacCount(a[0]); known && !canEnumerate(n, len(a[0])) && n.Cmp(big.NewInt(harnessCallsAbove)) <= 0 {
+			return []string{"too-large"}, nil
+		}
 		v, err := variants.AllVariantsIUPAC(a[0])
 		if err != nil {
 			return nil, err
@@ -97,6 +104,40 @@ func init() {
 		// for the line decoder of the model driver)
 		return out, nil
 	})
+}
+
+const harnessCallsAbove = 2147483647
+
+// iupacCount: the number of concrete readings of s, from the harness's own table of IUPAC code
+// sizes (not from the code under test); known = false if s has a letter outside the 15 codes
+// (the code is then called: it refuses at once).
+func iupacCount(s string) (*big.Int, bool) {
+	n := big.NewInt(1)
+	for _, c := range strings.ToUpper(s) {
+		var k int64
+		switch c {
+		case 'A', 'C', 'G', 'T':
+			k = 1
+		case 'R', 'Y', 'S', 'W', 'K', 'M':
+			k = 2
+		case 'B', 'D', 'H', 'V':
+			k = 3
+		case 'N':
+			k = 4
+		default:
+			return nil, false
+		}
+		n.Mul(n, big.NewInt(k))
+	}
+	return n, true
+}
+
+func canEnumerate(n *big.Int, length int) bool {
+	if n.Cmp(big.NewInt(2000000)) > 0 {
+		return false
+	}
+	t := new(big.Int).Mul(n, big.NewInt(int64(length+1)))
+	return t.Cmp(big.NewInt(30000000)) <= 0
 }
 
 func atoi(s string) int {
